@@ -5,8 +5,9 @@ import GrassProofs.Lemmas.ModuleLoader
   C12 — Modules load once, stay isolated and expose only public members.
 
   Property theorems about the model in Grass/Module.lean.  `Switches.spec` is the specified
-  behaviour, `Switches.now` the code as it stands in /repo (the correspondence runs against it),
-  `Switches.pinned` the tree before the D7 fix.  Theorems that hold for the code as it stands are
+  behaviour, `Switches.now` the code as it stands in /repo (the correspondence runs against it;
+  since the fixes of F1–F4 it equals `spec`, `C12_now_is_spec`), `Switches.beforeFixes` the tree
+  before those fixes, `Switches.pinned` the tree before the D7 fix.  Theorems that hold for the code as it stands are
   stated for *every* switch setting (`sw`); theorems that the code violates are stated for the
   specified variant, with a kernel-checked `C12_asFound_…` witness beside them.
 
@@ -296,12 +297,29 @@ theorem C12_forward_keys_sound (sw : Switches) (k : Kind) (ms : List Mod) (id : 
     (h : n ∈ (scopeView sw k ms id).keys) : ((scopeView sw k ms id).get n).isSome = true :=
   sound_scopeView sw k ms id n h
 
-/-- The fix for D7 is what makes the first theorem true also with the other switches as found:
-    with `ignoreLists := false` and without a prefix the code's forward view is the specified one. -/
-theorem C12_forward_view_now_without_prefix (k : Kind) (vis : Vis) (v : View) (hv : v.Good) (n : Ident) :
-    (forwardedMap .now k ⟨none, vis⟩ v).get n = fwdSpecGet ⟨none, vis⟩ k v.get n := by
+/-- **The code as it stands is the specified variant** (every found deviation is repaired), so the
+    theorems stated for `Switches.spec` are theorems about the code's model. -/
+theorem C12_now_is_spec : Switches.now = Switches.spec := rfl
+
+/-- … in particular the forward view, the whole scope and the key set, for the code as it stands. -/
+theorem C12_forward_view_now (k : Kind) (r : FwdRule) (ms : List Mod) (target : Nat) (n : Ident) :
+    (forwardedMap .now k r (scopeView .now k ms target)).get n = fwdSpecGet r k (scopeView .now k ms target).get n :=
+  C12_forward_view_spec k r ms target n
+
+theorem C12_scope_now (k : Kind) (ms : List Mod) (id : Nat) (n : Ident) :
+    (scopeView .now k ms id).get n = specGet k ms id n :=
+  C12_scope_spec k ms id n
+
+theorem C12_forward_keys_complete_now (k : Kind) (ms : List Mod) (id : Nat) (n : Ident)
+    (h : ((scopeView .now k ms id).get n).isSome = true) : n ∈ (scopeView .now k ms id).keys :=
+  C12_forward_keys_complete k ms id n h
+
+/-- Before F1 was fixed (but after D7) the forward view was already the specified one when no
+    prefix was involved. -/
+theorem C12_forward_view_beforeFixes_without_prefix (k : Kind) (vis : Vis) (v : View) (hv : v.Good) (n : Ident) :
+    (forwardedMap .beforeFixes k ⟨none, vis⟩ v).get n = fwdSpecGet ⟨none, vis⟩ k v.get n := by
   unfold forwardedMap fwdSpecGet FwdRule.allows
-  simp only [Switches.now, Bool.false_eq_true, if_false, prefixBy, stripPfx]
+  simp only [Switches.beforeFixes, Bool.false_eq_true, if_false, prefixBy, stripPfx]
   rw [limitBy_get vis k v hv n]
 
 private def mA : Mod := ⟨['a'], [(['x'], 1), (['y'], 2), (['-', 'p'], 3)], [(['f'], .const)], [['m']], [], [], []⟩
@@ -313,20 +331,20 @@ theorem C12_asFound_forward_ignores_show_hide :
         ≠ fwdSpecGet r .var (scopeView .pinned .var ms 0).get n :=
   ⟨⟨none, .allow [['x']] []⟩, [mA], ['y'], by decide⟩
 
-/-- Witness (code as it stands): `@forward "a" as p-* hide $p-y` hides `$p-x` too, because the
+/-- Witness (the tree before the fix): `@forward "a" as p-* hide $p-y` hides `$p-x` too, because the
     blocklist is computed from `PrefixedMapView::keys`, which drops every upstream key that does
     not already start with the prefix. -/
 theorem C12_asFound_prefix_hide_loses_members :
     ∃ (r : FwdRule) (ms : List Mod) (n : Ident),
-      (forwardedMap .now .var r (scopeView .now .var ms 0)).get n
-        ≠ fwdSpecGet r .var (scopeView .now .var ms 0).get n :=
+      (forwardedMap .beforeFixes .var r (scopeView .beforeFixes .var ms 0)).get n
+        ≠ fwdSpecGet r .var (scopeView .beforeFixes .var ms 0).get n :=
   ⟨⟨some ['p', '-'], .hide [['p', '-', 'y']] []⟩, [mA], ['p', '-', 'x'], by decide⟩
 
-/-- Witness (code as it stands): the key set of a prefixed forward is not complete — `$p-x` can be
+/-- Witness (the tree before the fix): the key set of a prefixed forward is not complete — `$p-x` can be
     referenced but `meta.module-variables` does not list it. -/
 theorem C12_asFound_prefixed_keys_incomplete :
     ∃ (ms : List Mod) (id : Nat) (n : Ident),
-      ((scopeView .now .var ms id).get n).isSome = true ∧ n ∉ (scopeView .now .var ms id).keys :=
+      ((scopeView .beforeFixes .var ms id).get n).isSome = true ∧ n ∉ (scopeView .beforeFixes .var ms id).keys :=
   ⟨[⟨['m', 'i', 'd'], [], [], [], [⟨⟨some ['p', '-'], .all⟩, 0⟩], [], []⟩, mA], 1, ['p', '-', 'x'], by decide⟩
 
 /-! ## (3) assignment through a namespace -/
@@ -546,21 +564,21 @@ theorem C12_with_after_load_is_error (sw : Switches) (proj : Project) (fuel : Na
 
 private def srcA : ModSrc := ⟨['a'], false, [.var ['x'] 1 true, .var ['y'] 2 false, .var ['z'] 3 true, .dbg, .css]⟩
 
-/-- Witness (code as it stands): under an outer configuration a `@forward … with` is never
+/-- Witness (the tree before the fix): under an outer configuration a `@forward … with` is never
     checked — `@use "mid" with ($x: 8)` where `mid` is `@forward "a" with ($zz: 7)` compiles although
     `a` has no `$zz`; the specified variant reports the error. -/
 theorem C12_asFound_forward_with_unchecked :
     ∃ (proj : Project) (entry : Ident), proj.wf = true ∧
-      resErr (run .now proj entry).res = none ∧ resErr (run .spec proj entry).res = some .withNotDefault :=
+      resErr (run .beforeFixes proj entry).res = none ∧ resErr (run .spec proj entry).res = some .withNotDefault :=
   ⟨[srcA, ⟨['m'], false, [.forward ⟨['a'], false⟩ ⟨none, .all⟩ [(['z', 'z'], 7, false)]]⟩,
     ⟨['e'], false, [.use ⟨['m'], false⟩ .dflt [(['x'], 8)]]⟩], ['e'], by decide, by decide, by decide⟩
 
-/-- Witnesses (code as it stands): two inputs on which grass panics where the specified variant
+/-- Witnesses (the tree before the fixes): two inputs on which grass panics where the specified variant
     reports an ordinary error or compiles. -/
 theorem C12_asFound_panics :
     ∃ (p1 p2 : Project) (entry : Ident),
-      resErr (run .now p1 entry).res = some .panic ∧ resErr (run .spec p1 entry).res = some .undefVar ∧
-      resErr (run .now p2 entry).res = some .panic ∧ resErr (run .spec p2 entry).res = none :=
+      resErr (run .beforeFixes p1 entry).res = some .panic ∧ resErr (run .spec p1 entry).res = some .undefVar ∧
+      resErr (run .beforeFixes p2 entry).res = some .panic ∧ resErr (run .spec p2 entry).res = none :=
   ⟨[srcA, ⟨['m'], false, [.forward ⟨['a'], false⟩ ⟨none, .all⟩ []]⟩,
      ⟨['e'], false, [.use ⟨['m'], false⟩ .dflt [], .assign ['m'] ['n', 'o'] 5 false]⟩],
    [srcA, ⟨['m'], false, [.forward ⟨['a'], false⟩ ⟨some ['p', '-'], .all⟩ [(['z'], 7, true)]]⟩,
